@@ -243,4 +243,223 @@ theorem inv_reach (hfix : c.fixed = true) (ht : 0 < c.threads) :
     ∀ s, Reach (sys c) s → Inv c s :=
   inv_induction (S := sys c) (Inv c) (inv_init c ht) (fun _ _ _ hI h => inv_step hfix hI h)
 
+/-! ### termination: a variant that every step decreases -/
+
+def rank : WPc → Nat
+  | .idle => 3 | .recv => 2 | .send _ => 5 | .sendErr _ => 5 | .tokret => 1 | .done => 0
+
+def crank : CPc → Nat
+  | .ready => 2 | .receiving => 1 | .closedSeen => 0
+
+def rankSum (ws : List WPc) : Nat := (ws.map rank).sum
+
+def mu (c : Cfg) (s : St) : Nat :=
+  5 * s.todo.length + (if c.wantClose && !s.inClosed then 1 else 0) + 4 * s.inq.length + rankSum s.ws
+  + s.outq.length + (if s.handoff.isSome then 2 else 0) + crank s.cpc
+  + (if s.stop then 0 else 1) + (if s.waitReturned then 0 else 1)
+
+theorem rankSum_set (ws : List WPc) (i : Nat) (a b : WPc) (h : ws[i]? = some a) :
+    rankSum (ws.set i b) + rank a = rankSum ws + rank b := by
+  induction ws generalizing i with
+  | nil => simp at h
+  | cons x xs ih =>
+    cases i with
+    | zero => simp at h; subst h; simp [rankSum]; omega
+    | succ n => simp at h; have := ih n h; simp [rankSum] at this ⊢; omega
+
+theorem mu_step (hfix : c.fixed = true) {a : Actor}
+    (hI : Inv c s) (h : step c s a = some s') : mu c s' < mu c s := by
+  have hnc := hI.nocrash
+  simp only [step, hnc, Option.isSome_none, Bool.false_eq_true, if_false] at h
+  cases a with
+  | worker i =>
+    simp only at h
+    cases hget : s.ws[i]? with
+    | none => simp [workerStep, hget] at h
+    | some pc =>
+      cases pc with
+      | idle =>
+        simp only [workerStep, hget] at h
+        have hr := rankSum_set s.ws i _ WPc.recv hget
+        split at h
+        · cases h; simp [mu, rank] at hr ⊢; omega
+        · cases h
+      | recv =>
+        simp only [workerStep, hget] at h
+        split at h
+        · rename_i op rest hinq
+          cases h
+          cases hp : op.isPan
+          · have hr := rankSum_set s.ws i _ (WPc.send (eval op)) hget
+            simp [mu, rank, hinq] at hr ⊢; omega
+          · have hr := rankSum_set s.ws i _ (WPc.sendErr (eval op)) hget
+            simp [mu, rank, hinq] at hr ⊢; omega
+        · split at h
+          · cases h
+            have hr := rankSum_set s.ws i _ WPc.tokret hget
+            simp [mu, rank] at hr ⊢; omega
+          · cases h
+      | send r =>
+        simp only [workerStep, hget] at h
+        have ⟨hc0, _⟩ := closes_zero_of_active hI hget (pc := .send r) rfl
+        have hgt : ¬ (s.closes > 0) := by omega
+        have hr1 := rankSum_set s.ws i _ WPc.recv hget
+        have hr2 := rankSum_set s.ws i _ WPc.tokret hget
+        cases hrw : s.recvWaiting <;> cases hst : s.stop <;>
+          by_cases hroom : s.outq.length < c.outCap <;>
+          simp [sendOut, hgt, hrw, hroom, hnc, hst] at h
+        all_goals subst h
+        all_goals (simp [mu, rank, hst] at hr1 hr2 ⊢; split <;> omega)
+      | sendErr r =>
+        simp only [workerStep, hget] at h
+        have ⟨hc0, _⟩ := closes_zero_of_active hI hget (pc := .sendErr r) rfl
+        have hgt : ¬ (s.closes > 0) := by omega
+        have hr2 := rankSum_set s.ws i _ WPc.tokret hget
+        cases hrw : s.recvWaiting <;>
+          by_cases hroom : s.outq.length < c.outCap <;>
+          simp [sendOut, hgt, hrw, hroom, hnc] at h
+        all_goals subst h
+        all_goals (simp [mu, rank] at hr2 ⊢; split <;> omega)
+      | tokret =>
+        simp only [workerStep, hget] at h
+        have ⟨hc0, _⟩ := closes_zero_of_active hI hget (pc := .tokret) rfl
+        have hgt : ¬ (s.closes > 0) := by omega
+        have hr := rankSum_set s.ws i _ WPc.done hget
+        cases h
+        by_cases hlast : s.exited + 1 = c.threads <;>
+          simp [exitBlock, hfix, hlast, hgt, mu, rank] at hr ⊢ <;> omega
+      | done => simp [workerStep, hget] at h
+  | producer =>
+    simp only [producerStep] at h
+    split at h
+    · rename_i op rest htodo
+      split at h
+      · cases h
+      · split at h
+        · cases h; simp [mu, htodo]; omega
+        · cases h
+    · split at h
+      · rename_i hcl
+        cases h
+        simp at hcl
+        simp [mu, hcl]
+      · cases h
+  | collector =>
+    simp only [collectorStep] at h
+    split at h
+    · rename_i hc
+      split at h
+      · rename_i r rest hq
+        cases h; simp [mu, hq, hc, crank] <;> omega
+      · split at h
+        · cases h; simp [mu, hc, crank] <;> omega
+        · cases h; simp [mu, hc, crank] <;> omega
+    · rename_i hc
+      split at h
+      · rename_i r hh
+        cases h; simp [mu, hc, hh, crank] <;> omega
+      · rename_i hh
+        split at h
+        · cases h; simp [mu, hc, hh, crank]
+        · cases h
+    · cases h
+  | stopper =>
+    simp only at h
+    split at h
+    · cases h
+    · rename_i hst
+      cases h; simp at hst; simp [mu, hst]
+  | waiter =>
+    simp only at h
+    split at h
+    · rename_i hw
+      cases h; simp at hw; simp [mu, hw]
+    · cases h
+
+/-! ### progress: with the queue closed, a state where no worker and not the collector can
+move is the clean final state -/
+
+theorem send_blocked_absurd (hI : Inv c s) (hc0 : s.closes = 0)
+    (hrw : s.recvWaiting = false) (hc : collectorStep s = none) : False := by
+  simp only [collectorStep] at hc
+  split at hc
+  · split at hc
+    · cases hc
+    · split at hc <;> cases hc
+  · rename_i hcpc
+    split at hc
+    · cases hc
+    · rename_i hh
+      have := hI.recv_coh hcpc
+      simp [hrw, hh] at this
+  · rename_i hcpc
+    have := (hI.seen_coh hcpc).2.2
+    omega
+
+theorem stuck_worker_done (hI : Inv c s) (hcl : s.inClosed = true) {i : Nat} {pc : WPc}
+    (hget : s.ws[i]? = some pc)
+    (hw : workerStep c s i = none) (hc : collectorStep s = none) : pc = .done := by
+  have hnc := hI.nocrash
+  cases pc with
+  | idle =>
+    simp only [workerStep, hget] at hw
+    split at hw
+    · cases hw
+    · have h1 := countP_lt_length_of WPc.holds s.ws i _ hget rfl
+      have h2 := hI.tokens
+      have h3 := hI.len
+      omega
+  | recv =>
+    simp only [workerStep, hget] at hw
+    split at hw
+    · cases hw
+    · simp [hcl] at hw
+  | send r =>
+    exfalso
+    simp only [workerStep, hget] at hw
+    have ⟨hc0, _⟩ := closes_zero_of_active hI hget (pc := .send r) rfl
+    have hgt : ¬ (s.closes > 0) := by omega
+    cases hrw : s.recvWaiting
+    · exact send_blocked_absurd hI hc0 hrw hc
+    · cases hst : s.stop <;> simp [sendOut, hgt, hrw, hnc, hst] at hw
+  | sendErr r =>
+    exfalso
+    simp only [workerStep, hget] at hw
+    have ⟨hc0, _⟩ := closes_zero_of_active hI hget (pc := .sendErr r) rfl
+    have hgt : ¬ (s.closes > 0) := by omega
+    cases hrw : s.recvWaiting
+    · exact send_blocked_absurd hI hc0 hrw hc
+    · simp [sendOut, hgt, hrw, hnc] at hw
+  | tokret => simp [workerStep, hget] at hw
+  | done => rfl
+
+theorem allDone_iff (hI : Inv c s) : allDone s = true ↔ s.exited = c.threads := by
+  rw [hI.exited_eq, ← hI.len, List.countP_eq_length]
+  simp [allDone, List.all_eq_true]
+
+theorem stuck_final (hI : Inv c s) (hcl : s.inClosed = true)
+    (hw : ∀ i, step c s (.worker i) = none) (hc : step c s .collector = none) :
+    allDone s = true ∧ s.closes = 1 ∧ s.wgDone = c.threads ∧ s.cpc = .closedSeen := by
+  have hnc := hI.nocrash
+  simp only [step, hnc, Option.isSome_none, Bool.false_eq_true, if_false] at hw hc
+  have hall : allDone s = true := by
+    simp only [allDone, List.all_eq_true]
+    intro pc hmem
+    obtain ⟨i, hi, hget⟩ := List.getElem_of_mem hmem
+    have hget' : s.ws[i]? = some pc := by simp [hi, hget]
+    have := stuck_worker_done hI hcl hget' (hw i) hc
+    subst this; rfl
+  have hex := (allDone_iff hI).1 hall
+  have hcloses : s.closes = 1 := by have := hI.closes_eq; simp [hex] at this; exact this
+  refine ⟨hall, hcloses, by rw [hI.wg_eq, hex], ?_⟩
+  simp only [collectorStep] at hc
+  split at hc
+  · split at hc
+    · cases hc
+    · split at hc <;> cases hc
+  · split at hc
+    · cases hc
+    · simp [hcloses] at hc
+  · assumption
+
 end Biogo.Processor
